@@ -370,28 +370,30 @@ func c02Scenarios(tier string) []*Scenario {
 	}
 	for _, shape := range []string{"Unary", "ClientStream", "ServerStream", "Bidi"} {
 		for _, fail := range []bool{false, true} {
-			req, resp := shapesReqResp(shape, []int{3})
-			wl := StdWorkload("r1", 1, shape, req, resp)
-			hmd, tmd := metadata.Pairs("h", "1"), metadata.Pairs("t", "1")
-			wl.Handler.Ops = append([]HOp{{K: "sethdr", MD: hmd}, {K: "settrl", MD: tmd}}, wl.Handler.Ops...)
-			ex := metaExpect{id: "r1", code: codes.OK, header: hmd, trailer: tmd, nResp: len(resp), checkHdr: true, hdrOpt: true, trlOpt: true}
-			if fail {
-				wl.Handler.Ops[len(wl.Handler.Ops)-1] = HOp{K: "return", Code: codes.Aborted, Msg: "scripted"}
-				ex.code, ex.msg, ex.nResp = codes.Aborted, "scripted", -1
-			}
-			wl.Call.HeaderOpt, wl.Call.TrailerOpt = true, true
-			if shape == "Unary" {
-				wl.Call.Ops = []COp{{K: "invoke", Size: 3}, {K: "targets"}}
-			} else {
-				wl.Call.Ops = []COp{{K: "new"}}
-				for range req {
-					wl.Call.Ops = append(wl.Call.Ops, COp{K: "send", Size: 3})
+			for _, revOrder := range []bool{false, true} {
+				req, resp := shapesReqResp(shape, []int{3})
+				wl := StdWorkload("r1", 1, shape, req, resp)
+				hmd, tmd := metadata.Pairs("h", "1"), metadata.Pairs("t", "1")
+				wl.Handler.Ops = append([]HOp{{K: "sethdr", MD: hmd}, {K: "settrl", MD: tmd}}, wl.Handler.Ops...)
+				ex := metaExpect{id: "r1", code: codes.OK, header: hmd, trailer: tmd, nResp: len(resp), checkHdr: true, hdrOpt: true, trlOpt: true}
+				if fail {
+					wl.Handler.Ops[len(wl.Handler.Ops)-1] = HOp{K: "return", Code: codes.Aborted, Msg: "scripted"}
+					ex.code, ex.msg, ex.nResp = codes.Aborted, "scripted", -1
 				}
-				wl.Call.Ops = append(wl.Call.Ops, COp{K: "closesend"}, COp{K: "header"}, COp{K: "recvall"}, COp{K: "trailer"}, COp{K: "targets"})
+				wl.Call.HeaderOpt, wl.Call.TrailerOpt = true, true
+				if shape == "Unary" {
+					wl.Call.Ops = []COp{{K: "invoke", Size: 3}, {K: "targets"}}
+				} else {
+					wl.Call.Ops = []COp{{K: "new"}}
+					for range req {
+						wl.Call.Ops = append(wl.Call.Ops, COp{K: "send", Size: 3})
+					}
+					wl.Call.Ops = append(wl.Call.Ops, COp{K: "closesend"}, COp{K: "header"}, COp{K: "recvall"}, COp{K: "trailer"}, COp{K: "targets"})
+				}
+				mk(fmt.Sprintf("c02/s/%s/fail=%v/rev=%v", shape, fail, revOrder),
+					fmt.Sprintf("%s RPC (fail=%v) with headers and trailers; every lock/atomic/channel operation in the client's completion path is a scheduling point; Trailer() and the option targets are read immediately after the terminal result; <= %d deviations", shape, fail, sb),
+					TunCfg{}, wl, ex, "", Options{Level: "focus", Focus: focus, Bound: sb, RevOrder: revOrder})
 			}
-			mk(fmt.Sprintf("c02/s/%s/fail=%v", shape, fail),
-				fmt.Sprintf("%s RPC (fail=%v) with headers and trailers; every lock/atomic/channel operation in the client's completion path is a scheduling point; Trailer() and the option targets are read immediately after the terminal result; <= %d deviations", shape, fail, sb),
-				TunCfg{}, wl, ex, "", Options{Level: "focus", Focus: focus, Bound: sb})
 		}
 	}
 	return scs
